@@ -73,3 +73,37 @@ package statedb
 //@   property C18 C04
 //@   pure
 //@   ensures len(k) > 3 ==> result == len(k) - (k[len(k)-2] * 256 + k[len(k)-1]) - 3
+
+// ---------------------------------------------------------------------------
+// lpmEntry: the per-key object list of a non-unique LPM index (C01, C04).
+// The entry is stored BY VALUE in the trie, so e.tail shares its backing array with the
+// entries reachable from earlier snapshots. upsert/delete may therefore write only the
+// entry itself and freshly allocated memory (frame clause), never the shared array.
+
+//@ func (*lpmEntry).searchTail returns (idx, found)
+//@   property C01 C04
+//@   trusted
+//@   pure
+//@   ensures 0 <= idx && idx <= len(e.tail)
+//@   ensures found ==> idx < len(e.tail)
+
+//@ func lpmEntry.len
+//@   property C04
+//@   pure
+//@   ensures result == (e.used ? 1 + len(e.tail) : 0)
+
+//@ func (*lpmEntry).upsert returns (added)
+//@   property C01 C04
+//@   requires e != nil
+//@   requires !e.used ==> len(e.tail) == 0
+//@   ensures @frame onlyFreshExcept(e)
+//@   ensures @used e.used
+//@   ensures @count (e.used ? 1 + len(e.tail) : 0) == old(e.used ? 1 + len(e.tail) : 0) + (added ? 1 : 0)
+
+//@ func (*lpmEntry).delete returns (obj, removed)
+//@   property C01 C04
+//@   requires e != nil ==> (!e.used ==> len(e.tail) == 0)
+//@   ensures @frame onlyFreshExcept(e)
+//@   ensures @inv e != nil ==> (!e.used ==> len(e.tail) == 0)
+//@   ensures @count e != nil ==> (e.used ? 1 + len(e.tail) : 0) == old(e.used ? 1 + len(e.tail) : 0) - (removed ? 1 : 0)
+//@   ensures @nil e == nil ==> !removed
